@@ -259,9 +259,11 @@ class Renderer(object):  # pylint: disable=too-many-instance-attributes
         margin = 0.0 if (self.exact and pr.trivial_frame()) else 1e-6
         return geom.classify(self.regions, pr.x, pr.y, margin)
 
-    def start(self):
+    def start(self, inch=False):
         self.g("G28")
         self.g("G1 X1 Y1 Z0.2 F3000")
+        if inch:
+            self.g("G20")
 
     def lx(self, axis, phys):
         """Logical word value for a physical target on an axis in the current frame."""
@@ -621,7 +623,7 @@ def cases(draw, p):
     fw = draw(st.booleans())
     abstract = draw(ops(p))
     rnd = Renderer(cfg, regions, p, delta, fw, exact)
-    rnd.start()
+    rnd.start(inch=bool(p["inch"] and not exact and draw(st.integers(0, 4)) == 0))
     for o in abstract:
         rnd.op(o)
     via = draw(st.sampled_from(["direct", "direct", "plugin"])) if p.get("via_plugin", True) else "direct"
